@@ -198,6 +198,33 @@ def zst_stream(rng, pid):
     return cases
 
 
+def inflight_stream(rng, pid, tier):
+    """a buffered (or chunk) pull in flight inside the wrapped `next()` while another thread skips, sees the end reported and
+    keeps pulling / querying: every schedule prefix"""
+    progs = [[["bufnew 2", "bufnext all", "hasmore"], ["skip", "next", "hasmore", "next", "len"]],
+             [["foreach 2"], ["skip", "next", "len", "next"]],
+             [["bufnew 3", "bufnext all", "len"], ["next", "skip", "hasmore", "next"]]]
+    bases = small_bases(rng, progs, ["iter"], n=5)
+    return exhaustive(pid + "-fl", bases, 2, 11 if tier == "quick" else 14)
+
+
+def huge_chunk_stream(rng, pid):
+    """one-shot chunk pulls of astronomic size on wrapped iterators of every hint kind (nothing may be pre-allocated or
+    pre-computed from the requested size)"""
+    cases = []
+    i = 0
+    for hint in ("unbounded", "inexact", "exact", "fixed3"):
+        for n in (1 << 62, (1 << 63) + 5, MAXW - 1, MAXW):
+            for pre in (0, 1):
+                for nt in (1, 2):
+                    c = make_source(rng, "%s-huge%d" % (pid, i), "iter", 3, hint=hint)
+                    c.threads = [["next"] * pre + ["chunk %d all" % n, "next", "hasmore"]] + ([["next", "chunk 2 all"]] if nt == 2 else [])
+                    c.sched = rand_sched(rng, nt, 10)
+                    cases.append(c)
+                    i += 1
+    return cases
+
+
 def liar_stream(rng, pid):
     """wrapped iterators whose exact size hint is not their length (size_hint must not be trusted for correctness):
     pulls whose chunks end exactly at, just before and just after the claimed length"""
@@ -212,6 +239,8 @@ def liar_stream(rng, pid):
                              [["foreach %d" % n], ["chunk %d all" % n]], [["chunk %d all" % n, "hasmore"]]]
                     for pr in progs:
                         for owner in ("intoseq all", "drop"):
+                            if (i % 7) == 3:
+                                k = rng.choice([MAXW, MAXW - 1, 1 << 63])     # an "exact" size that saturates the word
                             c = make_source(rng, "%s-liar%d" % (pid, i), kind, L, hint="fixed%d" % k)
                             c.threads = [list(t) for t in pr]
                             c.owner = owner
@@ -343,6 +372,7 @@ def stream_for0(pid, tier, seed):
                     if op.startswith("bufnext") and not seen:
                         t[j] = "next"
             cases.append(c)
+        cases += inflight_stream(rng, pid, tier)
         return cases
     if pid == "C06":
         cases = defects + pulls_stream(rng, tier, pid, prof=dict(skip=True), n_random=1200 if not big else 50000, exh=False)
@@ -421,12 +451,14 @@ def stream_for0(pid, tier, seed):
             for b in bases:
                 b.script = b.script[:k] + ["P"] + b.script[k:]
             cases += exhaustive("C09-px%d" % k, bases, 2, 7 if not big else 10)
+        cases += huge_chunk_stream(rng, pid)
         return cases
     if pid == "C10":
         return defects + pulls_stream(rng, tier, pid, prof=dict(skip=True, owners=["intoseq all", "intoseq 1", "intoseq 2", "intoseq 0"]), exh=False, n_random=2000 if not big else 80000) + liar_stream(rng, pid) + zst_stream(rng, pid)
     if pid == "C11":
         return defects + pulls_stream(rng, tier, pid, prof=dict(skip=True, query=True, drain=0.3), n_random=2000 if not big else 80000, exh=False) + \
-            exhaustive("C11-x2", small_bases(rng, [[["next", "len"], ["chunk 2 all", "hasmore"]], [["hasmore", "next"], ["skip", "len"]]], ["slice", "vec", "range", "iter"]), 2, 8 if not big else 11)
+            exhaustive("C11-x2", small_bases(rng, [[["next", "len"], ["chunk 2 all", "hasmore"]], [["hasmore", "next"], ["skip", "len"]]], ["slice", "vec", "range", "iter"]), 2, 8 if not big else 11) + \
+            inflight_stream(rng, pid, tier) + liar_stream(rng, pid)
     if pid == "C12":
         cases = defects[:0]
         for i in range(1500 if not big else 60000):
@@ -460,9 +492,10 @@ def stream_for0(pid, tier, seed):
             twins.append(t)
         return cases + twins
     if pid == "C16":
-        return [c for c in defects if c.id[0] in "HR" or c.id.startswith("D10")] + boundary_stream(rng, tier)
+        return [c for c in defects if c.id[0] in "HR" or c.id.startswith("D10")] + boundary_stream(rng, tier) + huge_chunk_stream(rng, pid)
     if pid == "C17":
-        return defects + pulls_stream(rng, tier, pid, prof=dict(skip=True), exh=False, n_random=2000 if not big else 80000)
+        return defects + pulls_stream(rng, tier, pid, prof=dict(skip=True), exh=False, n_random=2000 if not big else 80000) + \
+            [c for c in boundary_stream(rng, tier) if c.kind == "range"][::3] + huge_chunk_stream(rng, pid)
     if pid == "C18":
         cases = defects[:]
         for i in range(1500 if not big else 60000):
